@@ -33,6 +33,7 @@ import SarpyModel.Drivers.Tre
 import SarpyModel.Drivers.Dispatch
 import SarpyModel.Drivers.DispatchGen
 import SarpyModel.Drivers.NitfDtype
+import SarpyModel.Drivers.SegHist
 namespace Sarpy.Drivers
 
 def step (line : String) : String :=
@@ -73,6 +74,7 @@ def step (line : String) : String :=
   | "disp" :: rest => (dispStep rest).getD "bad-op"
   | "dispgen" :: rest => (dispgenStep rest).getD "bad-op"
   | "nitfdtype" :: rest => (nitfdtypeStep rest).getD "bad-op"
+  | "seghist" :: rest => (seghistStep rest).getD "bad-op"
   | _ => "bad-op"
 
 partial def loop (h : IO.FS.Stream) : IO Unit := do
